@@ -145,7 +145,7 @@ def rs2v(kernel=None):
 
 def coq_make(targets, timeout=1500):
     """Full .vo build (never -vos) of the given targets through the generated Makefile."""
-    missing = [g for g in ("CheckExcess.v", "ExitOps.v", "OptionTables.v", "SemiRule.v", "QuoteChoice.v", "ShouldFormat.v", "CtxOptions.v", "RequireKind.v", "CollapseRule.v", "IfGuard.v", "MinusGuard.v", "CondParens.v") if not os.path.exists(os.path.join(COQ, "gen", g))]
+    missing = [g for g in ("CheckExcess.v", "ExitOps.v", "OptionTables.v", "SemiRule.v", "QuoteChoice.v", "ShouldFormat.v", "CtxOptions.v", "RequireKind.v", "CollapseRule.v", "IfGuard.v", "MinusGuard.v", "CondParens.v", "BracketsString.v") if not os.path.exists(os.path.join(COQ, "gen", g))]
     if missing:
         os.makedirs(os.path.join(COQ, "gen"), exist_ok=True)
         rs2v()
